@@ -129,4 +129,440 @@ theorem boxDist_le (b : Box3 ℝ) (c p : V3 ℝ) (hs : 0 ≤ b.sx ∧ 0 ≤ b.sy
   have hz := boxDx_abs c.z b.az b.sz p.z hs.2.2 hp.2.2.2.2.1 hp.2.2.2.2.2
   linarith
 
+
+/-! ### the tree built by the constructor satisfies the covering hypotheses -/
+
+theorem mem_leavesOf_node (b : Box3 ℝ) (v : ℝ) (kids : Fin 8 → OT ℝ) (i : Nat) :
+    i ∈ leavesOf (OT.node b v kids) ↔ ∃ k, i ∈ leavesOf (kids k) := by
+  simp only [leavesOf, mem_foldl_append, List.not_mem_nil, false_or, List.mem_finRange, true_and]
+
+/-- box of child `k` (`k = 4 ix + 2 iy + iz`) -/
+def kidBox (b : Box3 ℝ) (k : Nat) : Box3 ℝ :=
+  ⟨b.ax + ((k / 4 : Nat) : ℝ) * (b.sx * 0.5), b.ay + ((k / 2 % 2 : Nat) : ℝ) * (b.sy * 0.5),
+   b.az + ((k % 2 : Nat) : ℝ) * (b.sz * 0.5), b.sx * 0.5, b.sy * 0.5, b.sz * 0.5⟩
+
+theorem childIdx_real (p a s : ℝ) (hs : 0 < s) (h1 : a ≤ p) (h2 : p < a + s) :
+    (p < a + s * 0.5 → childIdx p a s = 0) ∧ (a + s * 0.5 ≤ p → childIdx p a s = 1) := by
+  have hq : 0 ≤ 2.0 * (p - a) / s := by
+    apply div_nonneg _ hs.le; norm_num; linarith
+  unfold childIdx
+  constructor
+  · intro h
+    rw [toNat_eq_iff _ hq]
+    refine ⟨by simpa using hq, ?_⟩
+    rw [div_lt_iff₀ hs]; norm_num at h ⊢; linarith
+  · intro h
+    rw [toNat_eq_iff _ hq]
+    constructor
+    · rw [le_div_iff₀ hs]; norm_num at h ⊢; linarith
+    · rw [div_lt_iff₀ hs]; norm_num; linarith
+
+theorem childIdx_cases (p a s : ℝ) (hs : 0 < s) (h1 : a ≤ p) (h2 : p < a + s) :
+    (childIdx p a s = 0 ∧ p < a + s * 0.5) ∨ (childIdx p a s = 1 ∧ a + s * 0.5 ≤ p) := by
+  have := childIdx_real p a s hs h1 h2
+  rcases lt_or_ge p (a + s * 0.5) with h | h
+  · exact Or.inl ⟨this.1 h, h⟩
+  · exact Or.inr ⟨this.2 h, h⟩
+
+theorem subBox_spec (b : Box3 ℝ) (p : V3 ℝ) (hb : PosBox b) (hp : InBox b p) :
+    cellOf p b < 8 ∧ subBox b p = kidBox b (cellOf p b) ∧ InBox (subBox b p) p := by
+  obtain ⟨hx1, hx2, hy1, hy2, hz1, hz2⟩ := hp
+  obtain ⟨sx, sy, sz⟩ := hb
+  unfold cellOf subBox kidBox InBox
+  simp only [ofNat_real]
+  rcases childIdx_cases p.x b.ax b.sx sx hx1 hx2 with ⟨ex, cx⟩ | ⟨ex, cx⟩ <;>
+  rcases childIdx_cases p.y b.ay b.sy sy hy1 hy2 with ⟨ey, cy⟩ | ⟨ey, cy⟩ <;>
+  rcases childIdx_cases p.z b.az b.sz sz hz1 hz2 with ⟨ez, cz⟩ | ⟨ez, cz⟩ <;>
+  · rw [ex, ey, ez]
+    norm_num at cx cy cz ⊢
+    refine ⟨?_, ?_, ?_, ?_, ?_, ?_⟩ <;> linarith
+
+theorem kidBox_pos (b : Box3 ℝ) (k : Nat) (hb : PosBox b) : PosBox (kidBox b k) := by
+  obtain ⟨sx, sy, sz⟩ := hb
+  unfold PosBox kidBox
+  norm_num
+  exact ⟨sx, sy, sz⟩
+
+theorem kidBox_sub (b : Box3 ℝ) (k : Fin 8) (p : V3 ℝ) (hb : PosBox b) (hp : InBox (kidBox b k.val) p) :
+    InBox b p := by
+  obtain ⟨sx, sy, sz⟩ := hb
+  unfold InBox kidBox at *
+  fin_cases k <;>
+  · norm_num at hp ⊢
+    obtain ⟨h1, h2, h3, h4, h5, h6⟩ := hp
+    refine ⟨?_, ?_, ?_, ?_, ?_, ?_⟩ <;> linarith
+
+/-- the structural invariant of `add_position`: a node's box is the box that is passed down, a
+child lives in its octant, a leaf's position lies in its box -/
+def Boxed (pos : Nat → V3 ℝ) : OT ℝ → Box3 ℝ → Prop
+  | .empty, _ => True
+  | .leaf i, b => InBox b (pos i)
+  | .node b' _ kids, b => b' = b ∧ ∀ k : Fin 8, Boxed pos (kids k) (kidBox b k.val)
+
+theorem boxed_leaves (pos : Nat → V3 ℝ) : ∀ (t : OT ℝ) (b : Box3 ℝ), PosBox b → Boxed pos t b →
+    ∀ i ∈ leavesOf t, InBox b (pos i) := by
+  intro t
+  induction t with
+  | empty => intro b _ _ i hi; simp [leavesOf] at hi
+  | leaf j => intro b _ h i hi; simp only [leavesOf, List.mem_singleton] at hi; subst hi; exact h
+  | node b' v kids ih =>
+    intro b hb h i hi
+    obtain ⟨_, hk⟩ := h
+    rw [mem_leavesOf_node] at hi
+    obtain ⟨k, hik⟩ := hi
+    exact kidBox_sub b k _ hb (ih k _ (kidBox_pos b k.val hb) (hk k) i hik)
+
+
+theorem setKid_apply (kids : Fin 8 → OT ℝ) (k : Nat) (t : OT ℝ) (j : Fin 8) :
+    setKid kids k t j = if j.val = k % 8 then t else kids j := rfl
+
+/-- the common tail of `add_position`, given the children of the (possibly new) node -/
+theorem addPos_step (pos : Nat → V3 ℝ) (index fuel : Nat) (box : Box3 ℝ) (hb : PosBox box)
+    (hin : InBox box (pos index))
+    (ih : ∀ (t : OT ℝ) (b : Box3 ℝ), PosBox b → Boxed pos t b → InBox b (pos index) →
+      Boxed pos (addPos pos index fuel t b) b)
+    (kids : Fin 8 → OT ℝ) (hk : ∀ k : Fin 8, Boxed pos (kids k) (kidBox box k.val)) :
+    Boxed pos (OT.node box 0.0 (setKid kids (cellOf (pos index) box) (.leaf index))) box ∧
+    ∀ child, getKid kids (cellOf (pos index) box) = child →
+      Boxed pos (OT.node box 0.0 (setKid kids (cellOf (pos index) box)
+          (addPos pos index fuel child (subBox box (pos index))))) box := by
+  obtain ⟨hlt, hsub, hinsub⟩ := subBox_spec box (pos index) hb hin
+  have hmod : cellOf (pos index) box % 8 = cellOf (pos index) box := Nat.mod_eq_of_lt hlt
+  have hkid : Boxed pos (getKid kids (cellOf (pos index) box)) (kidBox box (cellOf (pos index) box)) := by
+    have h0 := hk ⟨cellOf (pos index) box % 8, Nat.mod_lt _ (by decide)⟩
+    have e : kidBox box (cellOf (pos index) box % 8) = kidBox box (cellOf (pos index) box) := by rw [hmod]
+    rw [← e]; exact h0
+  have key : ∀ new : OT ℝ, Boxed pos new (subBox box (pos index)) →
+      Boxed pos (OT.node box 0.0 (setKid kids (cellOf (pos index) box) new)) box := by
+    intro new hnew
+    refine ⟨rfl, ?_⟩
+    intro j
+    rw [setKid_apply]
+    split_ifs with hj
+    · rw [hj, hmod, ← hsub]; exact hnew
+    · exact hk j
+  refine ⟨key _ hinsub, ?_⟩
+  intro child hc
+  apply key
+  apply ih _ _ (by rw [hsub]; exact kidBox_pos _ _ hb) _ hinsub
+  rw [← hc, hsub]; exact hkid
+
+theorem addPos_boxed (pos : Nat → V3 ℝ) (index : Nat) : ∀ (fuel : Nat) (t : OT ℝ) (b : Box3 ℝ),
+    PosBox b → Boxed pos t b → InBox b (pos index) → Boxed pos (addPos pos index fuel t b) b := by
+  intro fuel
+  induction fuel with
+  | zero => intro t b _ h _; exact h
+  | succ fuel ih =>
+    intro t box hb ht hin
+    cases t with
+    | empty =>
+      have st := addPos_step pos index fuel box hb hin ih (fun _ => OT.empty) (fun _ => trivial)
+      simp only [addPos]
+      split
+      · exact st.1
+      · exact st.2 _ rfl
+    | leaf old =>
+      have st := addPos_step pos index fuel box hb hin ih
+        (setKid (fun _ => OT.empty) (cellOf (pos old) box) (.leaf old)) (by
+          intro j
+          rw [setKid_apply]
+          obtain ⟨hlt, hsub, hinsub⟩ := subBox_spec box (pos old) hb ht
+          split_ifs with hj
+          · rw [hj, Nat.mod_eq_of_lt hlt, ← hsub]; exact hinsub
+          · trivial)
+      simp only [addPos]
+      split
+      · exact st.1
+      · exact st.2 _ rfl
+    | node b' v kids =>
+      obtain ⟨rfl, hk⟩ := ht
+      have st := addPos_step pos index fuel b' hb hin ih kids hk
+      simp only [addPos]
+      split
+      · exact st.1
+      · exact st.2 _ rfl
+
+
+theorem fmax_ge (a b : ℝ) : a ≤ fmax a b ∧ b ≤ fmax a b := by
+  unfold fmax; split_ifs with h
+  · exact ⟨h.le, le_refl _⟩
+  · exact ⟨le_refl _, not_lt.mp h⟩
+
+/-- the accumulation loop of `set_variable`: the result bounds the start value and the value of
+every existing child -/
+theorem accVar_ge (kids : Fin 8 → OT ℝ) (r : Fin 8 → ℝ) (l : List (Fin 8)) : ∀ (a : Option ℝ) (x : ℝ),
+    ((∃ y, a = some y ∧ x ≤ y) ∨ ∃ i ∈ l, kids i ≠ .empty ∧ x = r i) →
+    ∃ v, l.foldl (accStep kids r) a = some v ∧ x ≤ v := by
+  induction l with
+  | nil =>
+    intro a x hx
+    rcases hx with ⟨y, hy, hxy⟩ | ⟨i, hi, _⟩
+    · exact ⟨y, hy, hxy⟩
+    · simp at hi
+  | cons j js ih =>
+    intro a x hx
+    simp only [List.foldl_cons]
+    apply ih
+    rcases hx with ⟨y, rfl, hxy⟩ | ⟨i, hi, hne, hxi⟩
+    · left
+      unfold accStep
+      split
+      · exact ⟨y, rfl, hxy⟩
+      · exact ⟨_, rfl, hxy.trans (fmax_ge _ _).1⟩
+    · rcases List.mem_cons.mp hi with rfl | hi
+      · left
+        unfold accStep
+        split
+        · rename_i he; exact absurd he hne
+        · cases a with
+          | none => exact ⟨_, rfl, hxi.le⟩
+          | some v => exact ⟨_, rfl, hxi.le.trans (fmax_ge _ _).2⟩
+      · right; exact ⟨i, hi, hne, hxi⟩
+
+theorem leavesOf_ne_empty (t : OT ℝ) (i : Nat) (hi : i ∈ leavesOf t) : t ≠ .empty := by
+  intro h; subst h; simp [leavesOf] at hi
+
+theorem setVar_leaves (h : Nat → ℝ) : ∀ t : OT ℝ, leavesOf (setVar h t).1 = leavesOf t := by
+  intro t
+  induction t with
+  | empty => rfl
+  | leaf j => rfl
+  | node b v kids ih =>
+    simp only [setVar, leavesOf]
+    congr 1
+    funext acc i
+    rw [ih i]
+
+theorem setVar_boxed (pos : Nat → V3 ℝ) (h : Nat → ℝ) : ∀ (t : OT ℝ) (b : Box3 ℝ),
+    Boxed pos t b → Boxed pos (setVar h t).1 b := by
+  intro t
+  induction t with
+  | empty => intro b hb; exact hb
+  | leaf j => intro b hb; exact hb
+  | node b' v kids ih =>
+    intro b hb
+    obtain ⟨e, hk⟩ := hb
+    exact ⟨e, fun k => ih k _ (hk k)⟩
+
+/-- the variable of a subtree bounds the variables of all its points -/
+theorem setVar_ge (h : Nat → ℝ) : ∀ (t : OT ℝ), ∀ i ∈ leavesOf t, h i ≤ (setVar h t).2 := by
+  intro t
+  induction t with
+  | empty => intro i hi; simp [leavesOf] at hi
+  | leaf j => intro i hi; simp only [leavesOf, List.mem_singleton] at hi; subst hi; exact le_refl _
+  | node b v kids ih =>
+    intro i hi
+    rw [mem_leavesOf_node] at hi
+    obtain ⟨k, hik⟩ := hi
+    obtain ⟨w, hw, hle⟩ := accVar_ge kids (fun i => (setVar h (kids i)).2) (List.finRange 8) none
+      (setVar h (kids k)).2 (Or.inr ⟨k, List.mem_finRange k, leavesOf_ne_empty _ _ hik, rfl⟩)
+    simp only [setVar, hw, accGet]
+    exact (ih k i hik).trans hle
+
+/-- the tree built by `add_position` + `set_variable` satisfies the covering hypotheses for the
+Euclidean distances -/
+theorem setVar_covered (pos : Nat → V3 ℝ) (h : Nat → ℝ) (c : V3 ℝ) : ∀ (t : OT ℝ) (b : Box3 ℝ),
+    PosBox b → Boxed pos t b →
+    Covered (fun i => dist (pos i) c) (fun b => boxDist b c) h (setVar h t).1 := by
+  intro t
+  induction t with
+  | empty => intro b _ _; exact Covered.empty
+  | leaf j => intro b _ _; exact Covered.leaf j
+  | node b' v kids ih =>
+    intro b hb hbx
+    have hl := setVar_leaves h (OT.node b' v kids)
+    have hv := setVar_ge h (OT.node b' v kids)
+    have hin := boxed_leaves pos _ _ hb hbx
+    obtain ⟨rfl, hk⟩ := hbx
+    simp only [setVar] at hl hv ⊢
+    refine Covered.node _ _ _ ?_ ?_ ?_
+    · intro i hi
+      rw [hl] at hi
+      obtain ⟨h1, h2, h3, h4, h5, h6⟩ := hin i hi
+      exact boxDist_le b' c (pos i) ⟨hb.1.le, hb.2.1.le, hb.2.2.le⟩ ⟨h1, h2.le, h3, h4.le, h5, h6.le⟩
+    · intro i hi
+      rw [hl] at hi
+      exact hv i hi
+    · intro k
+      exact ih k _ (kidBox_pos _ _ hb) (hk k)
+
+
+theorem mem_setKid (b : Box3 ℝ) (v : ℝ) (kids : Fin 8 → OT ℝ) (c : Nat) (new : OT ℝ) (i : Nat) :
+    i ∈ leavesOf (OT.node b v (setKid kids c new)) ↔
+      i ∈ leavesOf new ∨ ∃ k : Fin 8, k.val ≠ c % 8 ∧ i ∈ leavesOf (kids k) := by
+  rw [mem_leavesOf_node]
+  constructor
+  · rintro ⟨k, hk⟩
+    rw [setKid_apply] at hk
+    split_ifs at hk with hj
+    · exact Or.inl hk
+    · exact Or.inr ⟨k, hj, hk⟩
+  · rintro (hn | ⟨k, hj, hk⟩)
+    · refine ⟨⟨c % 8, Nat.mod_lt _ (by decide)⟩, ?_⟩
+      rw [setKid_apply, if_pos rfl]; exact hn
+    · refine ⟨k, ?_⟩
+      rw [setKid_apply, if_neg hj]; exact hk
+
+theorem mem_kids_split (kids : Fin 8 → OT ℝ) (c : Nat) (i : Nat) :
+    (∃ k, i ∈ leavesOf (kids k)) ↔
+      i ∈ leavesOf (getKid kids c) ∨ ∃ k : Fin 8, k.val ≠ c % 8 ∧ i ∈ leavesOf (kids k) := by
+  constructor
+  · rintro ⟨k, hk⟩
+    by_cases hj : k.val = c % 8
+    · left
+      have : k = ⟨c % 8, Nat.mod_lt _ (by decide)⟩ := Fin.ext hj
+      rw [this] at hk; exact hk
+    · exact Or.inr ⟨k, hj, hk⟩
+  · rintro (hn | ⟨k, _, hk⟩)
+    · exact ⟨_, hn⟩
+    · exact ⟨k, hk⟩
+
+/-- `add_position` adds at most the new index and loses nothing -/
+theorem addPos_leaves (pos : Nat → V3 ℝ) (index : Nat) : ∀ (fuel : Nat) (t : OT ℝ) (box : Box3 ℝ) (i : Nat),
+    (i ∈ leavesOf (addPos pos index fuel t box) → i ∈ leavesOf t ∨ i = index) ∧
+    (i ∈ leavesOf t → i ∈ leavesOf (addPos pos index fuel t box)) := by
+  intro fuel
+  induction fuel with
+  | zero => intro t box i; exact ⟨Or.inl, id⟩
+  | succ fuel ih =>
+    intro t box i
+    have step : ∀ kids : Fin 8 → OT ℝ,
+        (getKid kids (cellOf (pos index) box) = .empty →
+          ((i ∈ leavesOf (OT.node box 0.0 (setKid kids (cellOf (pos index) box) (.leaf index))) →
+            (∃ k, i ∈ leavesOf (kids k)) ∨ i = index) ∧
+           ((∃ k, i ∈ leavesOf (kids k)) →
+            i ∈ leavesOf (OT.node box 0.0 (setKid kids (cellOf (pos index) box) (.leaf index)))))) ∧
+        (∀ b' : Box3 ℝ, ((i ∈ leavesOf (OT.node b' 0.0 (setKid kids (cellOf (pos index) box)
+            (addPos pos index fuel (getKid kids (cellOf (pos index) box)) (subBox box (pos index))))) →
+            (∃ k, i ∈ leavesOf (kids k)) ∨ i = index) ∧
+           ((∃ k, i ∈ leavesOf (kids k)) →
+            i ∈ leavesOf (OT.node b' 0.0 (setKid kids (cellOf (pos index) box)
+            (addPos pos index fuel (getKid kids (cellOf (pos index) box)) (subBox box (pos index)))))))) := by
+      intro kids
+      constructor
+      · intro he
+        rw [mem_setKid, mem_kids_split kids (cellOf (pos index) box), he]
+        simp only [leavesOf, List.mem_singleton, List.not_mem_nil, false_or]
+        exact ⟨fun h => h.elim Or.inr Or.inl, Or.inr⟩
+      · intro b'
+        rw [mem_setKid, mem_kids_split kids (cellOf (pos index) box)]
+        have := ih (getKid kids (cellOf (pos index) box)) (subBox box (pos index)) i
+        constructor
+        · rintro (h | h)
+          · rcases this.1 h with h | h
+            · exact Or.inl (Or.inl h)
+            · exact Or.inr h
+          · exact Or.inl (Or.inr h)
+        · rintro (h | h)
+          · exact Or.inl (this.2 h)
+          · exact Or.inr h
+    cases t with
+    | empty =>
+      have st := step (fun _ => OT.empty)
+      simp only [addPos]
+      split
+      · rename_i he
+        have := st.1 he
+        simp only [leavesOf, List.not_mem_nil, exists_false, false_or] at this ⊢
+        exact ⟨this.1, fun h => h.elim⟩
+      · rename_i child hne
+        exact absurd rfl hne
+    | leaf old =>
+      have st := step (setKid (fun _ => OT.empty) (cellOf (pos old) box) (.leaf old))
+      have hL : (∃ k, i ∈ leavesOf (setKid (fun _ => (OT.empty : OT ℝ)) (cellOf (pos old) box) (.leaf old) k)) ↔
+          i ∈ leavesOf (OT.leaf old : OT ℝ) := by
+        rw [← mem_leavesOf_node box 0.0, mem_setKid]
+        simp [leavesOf]
+      simp only [addPos]
+      rw [← hL]
+      split
+      · rename_i he; exact st.1 he
+      · exact st.2 box
+    | node b' v kids =>
+      have st := step kids
+      simp only [addPos]
+      rw [mem_leavesOf_node]
+      split
+      · rename_i he; exact st.1 he
+      · exact st.2 b'
+
+
+theorem addPos_isNode (pos : Nat → V3 ℝ) (index fuel : Nat) (t : OT ℝ) (box : Box3 ℝ) :
+    ∃ b v kids, addPos pos index (fuel + 1) t box = OT.node b v kids := by
+  cases t <;> simp only [addPos] <;> split <;> exact ⟨_, _, _, rfl⟩
+
+/-- the loop of the constructor keeps the invariant and stores only indices below `n` -/
+theorem buildLoop_spec (pos : Nat → V3 ℝ) (n : Nat) (box : Box3 ℝ) (hb : PosBox box)
+    (hin : ∀ i < n, InBox box (pos i)) : ∀ (l : List Nat), (∀ j ∈ l, j + 1 < n) → ∀ t : OT ℝ,
+    (Boxed pos t box ∧ ∀ i ∈ leavesOf t, i < n) →
+    (Boxed pos (l.foldl (fun t i => addPos pos (i + 1) 64 t box) t) box ∧
+      ∀ i ∈ leavesOf (l.foldl (fun t i => addPos pos (i + 1) 64 t box) t), i < n) := by
+  intro l
+  induction l with
+  | nil => intro _ t h; exact h
+  | cons j js ih =>
+    intro hl t h
+    simp only [List.foldl_cons]
+    apply ih (fun k hk => hl k (List.mem_cons_of_mem _ hk))
+    have hj := hl j List.mem_cons_self
+    refine ⟨addPos_boxed pos (j + 1) 64 t box hb h.1 (hin _ hj), ?_⟩
+    intro i hi
+    rcases (addPos_leaves pos (j + 1) 64 t box i).1 hi with h' | h'
+    · exact h.2 i h'
+    · rw [h']; exact hj
+
+theorem foldl_isNode (pos : Nat → V3 ℝ) (box : Box3 ℝ) : ∀ (l : List Nat) (t : OT ℝ),
+    (l ≠ [] ∨ ∃ b v kids, t = OT.node b v kids) →
+    ∃ b v kids, l.foldl (fun t i => addPos pos (i + 1) 64 t box) t = OT.node b v kids := by
+  intro l
+  induction l with
+  | nil => intro t h; rcases h with h | h; exact absurd rfl h; exact h
+  | cons j js ih =>
+    intro t _
+    simp only [List.foldl_cons]
+    exact ih _ (Or.inr (addPos_isNode pos (j + 1) 63 t box))
+
+theorem setVar_isNode (h : Nat → ℝ) (t : OT ℝ) (ht : ∃ b v kids, t = OT.node b v kids) :
+    ∃ b v kids, (setVar h t).1 = OT.node b v kids := by
+  obtain ⟨b, v, kids, rfl⟩ := ht
+  exact ⟨_, _, _, rfl⟩
+
+/-- the constructed tree: covering hypotheses hold, only indices below `n` are stored, and with
+at least two positions the root is a node -/
+theorem build_spec (pos : Nat → V3 ℝ) (n : Nat) (box : Box3 ℝ) (h : Nat → ℝ) (c : V3 ℝ) (hb : PosBox box)
+    (hin : ∀ i < n, InBox box (pos i)) (hn : 2 ≤ n) :
+    Covered (fun i => dist (pos i) c) (fun b => boxDist b c) h (build pos n box h) ∧
+    (∀ i ∈ leavesOf (build pos n box h), i < n) ∧
+    ∃ b v kids, build pos n box h = OT.node b v kids := by
+  have hl : ∀ j ∈ List.range (n - 1), j + 1 < n := by
+    intro j hj; rw [List.mem_range] at hj; omega
+  have h0 : Boxed pos (OT.leaf 0 : OT ℝ) box ∧ ∀ i ∈ leavesOf (OT.leaf 0 : OT ℝ), i < n := by
+    refine ⟨hin 0 (by omega), ?_⟩
+    intro i hi; simp only [leavesOf, List.mem_singleton] at hi; omega
+  have sp := buildLoop_spec pos n box hb hin _ hl _ h0
+  have hne : List.range (n - 1) ≠ [] := by
+    intro he
+    have : (List.range (n - 1)).length = 0 := by rw [he]; rfl
+    rw [List.length_range] at this; omega
+  refine ⟨setVar_covered pos h c _ box hb sp.1, ?_, setVar_isNode h _ (foldl_isNode pos box _ _ (Or.inl hne))⟩
+  intro i hi
+  unfold build at hi
+  rw [setVar_leaves] at hi
+  exact sp.2 i hi
+
+/-- the searches start below the root: same statement for `searchRoot` -/
+theorem searchRoot_eq_filter (pd : Nat → ℝ) (bd : Box3 ℝ → ℝ) (h : Nat → ℝ) (radius : Option ℝ)
+    (hr : ∀ r, radius = some r → 0 ≤ r) (b : Box3 ℝ) (v : ℝ) (kids : Fin 8 → OT ℝ)
+    (hc : Covered pd bd h (OT.node b v kids)) :
+    searchRoot pd bd h radius (OT.node b v kids) =
+      (leavesOf (OT.node b v kids)).filter (fun i => decide (pd i ≤ limOf h radius i)) := by
+  cases hc with
+  | node _ _ _ _ _ hk =>
+    simp only [searchRoot, leavesOf]
+    rw [filter_foldl_append]
+    simp only [List.filter_nil]
+    congr 1
+    funext acc i
+    rw [search_eq_filter pd bd h radius hr _ (hk i)]
+
 end CMacVerif.Oct
